@@ -293,6 +293,29 @@ func check(c mcase, fail func(key, msg string)) {
 		if m, _ := col.Get("a"); !same(m, next) {
 			report("mutated-store", "Collection.Pull with a read mask changed the stored item")
 		}
+		if !same(orig, next) {
+			// the masked subscriber next to a neighbour, registered first, that SELECTS items (include) and for which
+			// this update takes the item out of its selection: what the neighbour is told (a removal) is its own
+			// affair - the masked subscriber receives the update, old and new value projected. (The masked subscriber
+			// reads its seed only after the neighbour has its event: by then the neighbour has made of the change
+			// whatever it makes of it.)
+			ctx3, cancel3 := context.WithCancel(context.Background())
+			defer cancel3()
+			col3 := resource.NewCollection(resource.WithInitialRecord("a", proto.Clone(orig)))
+			nb := col3.Pull(ctx3, resource.WithBackpressure(true), resource.WithInclude(func(id string, m proto.Message) bool { return same(m, orig) }))
+			<-nb
+			mch := col3.Pull(ctx3, resource.WithReadMask(mask), resource.WithBackpressure(true))
+			go col3.Update("a", proto.Clone(next))
+			nbEv := <-nb
+			if nbEv.ChangeType != types.ChangeType_REMOVE {
+				report("include", fmt.Sprintf("a subscriber selecting the items equal to %v is told %v when the item becomes %v", orig, nbEv.ChangeType, next))
+			}
+			<-mch // seed
+			me := <-mch
+			if me.ChangeType != types.ChangeType_UPDATE || !same(me.NewValue, wantNext) || !same(me.OldValue, want) {
+				report("projection", fmt.Sprintf("next to a selecting neighbour the masked Collection.Pull receives %v %v -> %v, the projections of the update are UPDATE %v -> %v", me.ChangeType, me.OldValue, me.NewValue, want, wantNext))
+			}
+		}
 	}
 }
 
